@@ -63,13 +63,18 @@ def enter_set(prefix, tags, n=3, **kw):
         out.append(H("%s_v%d" % (prefix, v), tags=tags, cfg=["vp_h0"], features=["history", "autocomplete"], bounds="same, build without `help`: handler view compared item by item", timeout=2400, mem=10, **kw))
     # history side of Enter: N=3 with a 2-byte history buffer (empty, or one 1-byte entry:
     # recorded / duplicate / evicted / too long); larger history states are C10's push step
-    for v in (1, 2):
-        out.append(H("cli_steps::key_enter_history_v%d" % v, tags=tags, cfg=["vp_h2"], bounds="Enter from ANY CliInv state (N=3, H=2) with a line of exactly %d bytes: history side" % v, timeout=2400, mem=10, **kw))
+    for v in (1, 2, 3):
+        out.append(H("cli_steps::key_enter_history_v%d" % v, tags=tags, bounds="Enter with the fixed line `%s` from ANY history state (H=3) and any cursor / prompt: history side" % ("abc"[:v]), timeout=2400, mem=10, **kw))
     return out
 
 
-def routing_set(tags, lens=range(0, 7), **kw):
-    return [H("cli_steps::process_input_routing_n%d" % n, tags=tags, bounds="every well-formed token buffer of exactly %d bytes over {NUL, -, h, e, l, p, x, e-acute} handed to process_input (dispatch count, handler's view of name / item count / first item, help routing, output flushed)" % n, timeout=2400, mem=8, **kw) for n in lens]
+ROUTING = ["routing_help", "routing_help_cmd", "routing_help_cmd_dash_h", "routing_dash_h", "routing_long_help", "routing_cluster_h",
+           "routing_dash_h_after_dd", "routing_long_help_after_dd", "routing_helpx", "routing_name_only", "routing_name_value",
+           "routing_almost_help", "routing_other_short", "routing_empty"]
+
+
+def routing_set(tags, lens=None, **kw):
+    return [H("cli_steps::" + r, tags=tags, bounds="process_input on the token-list template `%s` (free position filled with a letter): dispatch count, handler's view (name, item count, first item), help routing, output flushed" % r[8:], timeout=1200, mem=5, **kw) for r in ROUTING]
 
 
 
@@ -272,7 +277,8 @@ PROPS["C01"] = {
     ] + enter_set("cli_steps::key_enter", ["C01"]) + [
     ] + routing_set(["C01", "C12"]) + [
         H("cli_steps::api_build", tags=["C01"], bounds="CliBuilder::build() with each of the three prompts"),
-        H("cli_glue::glue_ascii", tags=["C01"], features=[], cfg=["vp_h0"], nodebug=True, bounds="process_byte(b) vs accept(b) + per-key entry: ANY editor state (N=3), ANY decoder state, every byte < 0x80; optional features off (process_byte has no cfg gate - checked textually)", timeout=2400, mem=12),
+        H("cli_glue::glue_ascii_v1", tags=["C01"], features=[], cfg=["vp_h0"], nodebug=True, bounds="process_byte(b) vs accept(b) + per-key entry: ANY editor state with a 1-byte line (N=3), ANY decoder state, every byte < 0x80; optional features off", timeout=2400, mem=12),
+        H("cli_glue::glue_ascii", tier="thorough", optional=True, tags=["C01"], features=[], cfg=["vp_h0"], nodebug=True, bounds="process_byte(b) vs accept(b) + per-key entry: ANY editor state (N=3), ANY decoder state, every byte < 0x80; optional features off (process_byte has no cfg gate - checked textually)", timeout=2400, mem=12),
         H("cli_steps::key_enter_twin", kind="twin", cfg=["vp_h0"], mem=10),
     ],
 }
@@ -284,7 +290,7 @@ PROPS["C15"] = {
     ] + [h for h in enter_set("cli_steps::key_enter", ["C15"]) if "features" not in h] + [
         H("cli_steps::api_write_set_prompt", tags=["C15", "C13"], bounds="Cli::set_prompt / Cli::write(write_str|writeln_str of <= 2 bytes over {x, LF}) from ANY CliInv state", timeout=900, mem=4),
         H("cli_steps::api_build", tags=["C15"], bounds="CliBuilder::build() with each of the three prompts"),
-    ] + routing_set(["C15"], lens=(4, 6)) + [
+    ] + routing_set(["C15"]) + [
         H("cli_steps::key_enter_twin", kind="twin", cfg=["vp_h0"], mem=10),
     ],
 }
@@ -357,8 +363,8 @@ def _c16():
                 if "char" in k:
                     d["nodebug"] = True
                 hs.append(H("cli_steps::" + k, **d))
-            for n_ in (4, 6):
-                hs.append(H("cli_steps::process_input_routing_n%d" % n_, features=feats, tags=["C16", "C01", "C12", "C15"], bounds="features {%s}: every token buffer of exactly %d bytes handed to process_input" % (label, n_), timeout=2400, mem=8))
+            for r_ in ("routing_help", "routing_help_cmd", "routing_dash_h", "routing_long_help", "routing_name_value"):
+                hs.append(H("cli_steps::" + r_, features=feats, tags=["C16", "C01", "C12", "C15"], bounds="features {%s}: process_input on template %s" % (label, r_[8:]), timeout=1200, mem=5))
             if len(feats) in (0, 3) or feats == ["help"]:
                 hs.append(H("cli_steps::key_enter_v2", features=feats, cfg=["vp_h0"], tags=["C16", "C01", "C15"], bounds="features {%s}: Enter, line of 2 bytes, N=3, history buffer of size 0" % label, timeout=2400, mem=10))
     hs.append(H("cli_steps::key_enter_twin", kind="twin", cfg=["vp_h0"], mem=10))
